@@ -3,7 +3,9 @@
 meta.json), refresh meta.json['checks_result'] and print a markdown table. Scratch worktrees only; no evidence written."""
 import json, os, subprocess, sys, glob
 HERE = os.path.dirname(os.path.abspath(__file__))
-only = sys.argv[1:]
+args = sys.argv[1:]
+all_checks = '--all-checks' in args
+only = [a for a in args if not a.startswith('--')]
 rows = []
 for d in sorted(glob.glob(os.path.join(HERE, 'seeded', '*'))):
     name = os.path.basename(d)
@@ -14,14 +16,17 @@ for d in sorted(glob.glob(os.path.join(HERE, 'seeded', '*'))):
         continue
     meta = json.load(open(mp))
     prop = meta['breaks_property']
-    checks = [prop] + [c for c in meta.get('checks_result', {}) if c != prop]
+    checks = [prop] + ([c for c in meta.get('checks_result', {}) if c != prop] if all_checks else [])
     r = subprocess.run([os.path.join(HERE, 'tools_seeded.py'), os.path.join(d, 'patch.diff')] + checks, capture_output=True, text=True)
     res = {}
     for line in r.stdout.splitlines():
         for c in checks:
             if line.startswith(c + ':'):
                 res[c] = line.split()[1]
-    meta['checks_result'] = res
+    old = dict(meta.get('checks_result', {}))
+    old.update(res)
+    meta['checks_result'] = old
+    res = old
     meta.setdefault('what_was_run', []).append({'cmd': f'tools_seeded.py patch.diff {" ".join(checks)} (re-run after strengthening)', 'result': res})
     json.dump(meta, open(mp, 'w'), indent=1)
     rows.append((name, prop, res))
